@@ -8,12 +8,8 @@ From Gen Require Import Store_Extracted.
 Import ListNotations.
 
 (* the configuration the code shows is the repaired one: the machine of the theorems is [fixed_cfg] *)
-(* (fix FC07b — a file-backed store writes a trajectory larger than its cache uncached — is proposed, not yet in the
-   tree: until it is, the last switch may still be off; harness obligation `Store_link_FC07b_applied` demands it
-   as soon as the finding is recorded as fixed) *)
-Theorem Store_link_cfg :
-  extracted_cfg = fixed_cfg \/ extracted_cfg = mkCfg true true true true true true true true false.
-Proof. first [left; reflexivity | right; reflexivity]. Qed.
+Theorem Store_link_cfg : extracted_cfg = fixed_cfg.
+Proof. reflexivity. Qed.
 Print Assumptions Store_link_cfg.
 
 (* ---- add ---- *)
@@ -22,13 +18,8 @@ Theorem Store_link_add_steps :
   steps_add = [AModeCheck; AFieldsetsAgainstFiles; AFieldsetsDeclaredForAssociated; AFieldsetsAgainstCached; AComputeHasId; AIdConsistencyCheck;
                ARequiredValuesCheck;
                ACounterRead; ACacheInsertIfItFits; ACounterBump; AIndexableAssign; AFileCreateFromThisTrajectory;
-               AWriteThisTrajectory; AStaleSet; AReturnSavedIndex]
-  \/
-  steps_add = [AModeCheck; AFieldsetsAgainstFiles; AFieldsetsDeclaredForAssociated; AFieldsetsAgainstCached; AComputeHasId; AIdConsistencyCheck;
-               ARequiredValuesCheck;
-               ACounterRead; ACacheInsert; ACounterBump; AIndexableAssign; AFileCreate; AWrite; AStaleSet;
-               AReturnSavedIndex].
-Proof. first [left; reflexivity | right; reflexivity]. Qed.
+               AWriteThisTrajectory; AStaleSet; AReturnSavedIndex].
+Proof. reflexivity. Qed.
 Print Assumptions Store_link_add_steps.
 
 Definition a_is_check (s : astep) : bool :=
@@ -57,20 +48,15 @@ Fixpoint count_checks (l : list astep) : nat :=
 Theorem Store_link_add_no_state_touched_before_last_check :
   checks_first steps_add false = true /\
   count_checks steps_add = 6 /\
-  exists pre ins post, steps_add = pre ++ [ACounterRead; ins; ACounterBump] ++ post
-                   /\ (ins = ACacheInsertIfItFits \/ ins = ACacheInsert)
+  exists pre post, steps_add = pre ++ [ACounterRead; ACacheInsertIfItFits; ACounterBump] ++ post
                    /\ forallb (fun s => negb (a_mutates s)) pre = true
                    /\ forallb (fun s => negb (a_is_check s)) post = true.
 Proof.
   split; [reflexivity|]. split; [reflexivity|].
-  first [ exists [AModeCheck; AFieldsetsAgainstFiles; AFieldsetsDeclaredForAssociated; AFieldsetsAgainstCached; AComputeHasId;
-                  AIdConsistencyCheck; ARequiredValuesCheck], ACacheInsertIfItFits,
-                 [AIndexableAssign; AFileCreateFromThisTrajectory; AWriteThisTrajectory; AStaleSet; AReturnSavedIndex];
-          split; [reflexivity|]; split; [now left|]; split; reflexivity
-        | exists [AModeCheck; AFieldsetsAgainstFiles; AFieldsetsDeclaredForAssociated; AFieldsetsAgainstCached; AComputeHasId;
-                  AIdConsistencyCheck; ARequiredValuesCheck], ACacheInsert,
-                 [AIndexableAssign; AFileCreate; AWrite; AStaleSet; AReturnSavedIndex];
-          split; [reflexivity|]; split; [now right|]; split; reflexivity ].
+  exists [AModeCheck; AFieldsetsAgainstFiles; AFieldsetsDeclaredForAssociated; AFieldsetsAgainstCached; AComputeHasId;
+          AIdConsistencyCheck; ARequiredValuesCheck],
+         [AIndexableAssign; AFileCreateFromThisTrajectory; AWriteThisTrajectory; AStaleSet; AReturnSavedIndex].
+  repeat split; reflexivity.
 Qed.
 Print Assumptions Store_link_add_no_state_touched_before_last_check.
 
